@@ -1,4 +1,4 @@
 From Coq Require Import Extraction ExtrOcamlBasic NArith.
-From DV Require Import Base.Outcome C08.Gen C08.Model.
+From DV Require Import Base.Outcome C08.Gen C08.Model C08.ToMessage.
 Extraction Language OCaml.
-Extraction "../build/ml/C08/model.ml" c08_run c08_query c08_walk wild_label c08_tree_run c08_tree_find c08_tree_get c08_tree_list.
+Extraction "../build/ml/C08/model.ml" c08_run c08_query c08_walk wild_label c08_tree_run c08_tree_find c08_tree_get c08_tree_list c08_tomsg.
